@@ -1,5 +1,6 @@
 import PydjinniModel.Sys.Files
 import PydjinniModel.Sys.Api
+import PydjinniModel.Props.C17
 /-!
 # C14 — files land where configured and the processed-files report is exact
 
@@ -586,3 +587,32 @@ example :
   decide +kernel
 
 end Pydjinni.SysC
+
+/-! ### the configuration of a run = the configuration file with the caller's options merged in (`Sys/Config.lean: combine`)
+
+`merge_override` (Props/C17.lean) for the keys this property is about: whatever the file holds at `generate.<g>.out` — one
+directory or the `{header, source}` mapping — an option that gives ONE directory there is the effective value, and an option
+that gives one key of the mapping is the effective value of that key (the other key keeps the file's value if the file had a
+mapping: `merge_keeps`). The check configures the control context from `combine options file`. -/
+namespace Pydjinni.Sys
+
+theorem override_single_dir_wins (g dir : String) (o b : Kids) (hwf : wf (.node o) = true)
+    (h : getPath ["generate", g, "out"] (.node o) = some (.leaf (.str dir))) :
+    getPath ["generate", g, "out"] (.node (combine o b)) = some (.leaf (.str dir)) :=
+  merge_override _ o b _ hwf h
+
+theorem override_split_dir_wins (g k dir : String) (o b : Kids) (hwf : wf (.node o) = true)
+    (h : getPath ["generate", g, "out", k] (.node o) = some (.leaf (.str dir))) :
+    getPath ["generate", g, "out", k] (.node (combine o b)) = some (.leaf (.str dir)) :=
+  merge_override _ o b _ hwf h
+
+/-- the hypotheses are satisfiable, and the split section of the file is *gone* (not merely shadowed): -/
+def exFile : Kids := [("generate", .node [("cpp", .node [("out", .node [("header", .leaf (.str "gen/include")), ("source", .leaf (.str "gen/src"))]),
+                                                         ("namespace", .leaf (.str "demo"))])])]
+def exOpts : Kids := [("generate", .node [("cpp", .node [("out", .leaf (.str "build/cpp"))])])]
+#guard wf (.node exOpts)
+#guard getPath ["generate", "cpp", "out"] (.node (combine exOpts exFile)) == some (.leaf (.str "build/cpp"))
+#guard getPath ["generate", "cpp", "out", "header"] (.node (combine exOpts exFile)) == none
+#guard getPath ["generate", "cpp", "namespace"] (.node (combine exOpts exFile)) == some (.leaf (.str "demo"))
+
+end Pydjinni.Sys
